@@ -56,7 +56,9 @@ func runC12(c *Ctx) {
 func nilPartsGuarded(c *Ctx, rule string, fn *ssa.Function) {
 	p := c.P
 	n := 0
-	eachInstr(fn, func(in ssa.Instruction) {
+	// the verifier and the same-package helpers it delegates to, described in the verifier's vocabulary
+	r := p.RegionOf(fn, 2)
+	r.Instrs(func(site regionSite, in ssa.Instruction) {
 		cc := callCommon(in)
 		if cc == nil || cc.StaticCallee() == nil || len(cc.Args) == 0 || cc.StaticCallee().Signature.Recv() == nil {
 			return
@@ -70,7 +72,7 @@ func nilPartsGuarded(c *Ctx, rule string, fn *ssa.Function) {
 				}
 			}
 		}
-		t := p.TermOf(recv)
+		t := r.Term(site, recv)
 		if !(t.Strip().Op == "field" && t.Strip().Args[0].IsParam(fn, 0)) {
 			return
 		}
@@ -79,7 +81,7 @@ func nilPartsGuarded(c *Ctx, rule string, fn *ssa.Function) {
 		}
 		n++
 		ts := t.String()
-		cs := p.CondsAt(in.Block())
+		cs := r.Conds(regionInstr{site, in})
 		guarded := hasCond(cs, func(k Cond) bool {
 			return !k.Pol && k.Atom.Op == "EQ" && (k.Atom.Args[0].Name == "nil" && k.Atom.Args[1].String() == ts || k.Atom.Args[1].Name == "nil" && k.Atom.Args[0].String() == ts)
 		})
